@@ -1152,8 +1152,11 @@ def _origins_place(body, place, passthru, seen, out, depth, pend=None):
     for p in projs:
         if isinstance(p, str) and p.startswith('v') and ':' in p:
             vname = p.split(':', 1)[1]
-            if vname not in ('Some', 'Ok', 'Continue'):
-                chain.append(vname)
+            if vname in ('Some', 'Ok'):
+                continue
+            if vname == 'Continue' and 'ControlFlow' in lty and not chain:
+                continue
+            chain.append(vname)
     if chain:
         # field path after the last downcast (which payload field of that variant)
         fpath = []
